@@ -1638,8 +1638,9 @@ class Cell(Bucket):
                     assert app.server in servers
                     assert app.has_identity()
                     servers[app.server].remove(app.name)
-                    app.release_identity()
 
+                # An app evicted earlier in this cycle still holds its identity.
+                app.release_identity()
                 continue
 
             restore = {}
@@ -1690,6 +1691,7 @@ class Cell(Bucket):
             assert app.server is None
 
             if app.schedule_once and app.evicted:
+                app.release_identity()
                 continue
 
             # Check if placement is feasible.
@@ -1697,6 +1699,7 @@ class Cell(Bucket):
                 _LOGGER.info(
                     'Placement not feasible: %s %r', app.name, app.shape()
                 )
+                app.release_identity()
                 continue
 
             if not self.put(app):
